@@ -52,10 +52,25 @@ class FakeTime:
 _FT = FakeTime()
 
 
+class _NoSyncOS:
+    """stands in for `os` inside repozo: fsync is a no-op (C18 has no crash model; the scratch
+    directory is thrown away), everything else is the real module"""
+
+    def fsync(self, fd):
+        return None
+
+    def __getattr__(self, n):
+        return getattr(os, n)
+
+
 def repozo_mod():
     import ZODB.scripts.repozo as rz
     if rz.time is not _FT:
         rz.time = _FT
+        rz.os = _NoSyncOS()
+        fsmod = sys.modules.get('ZODB.FileStorage.FileStorage')
+        if fsmod is not None and hasattr(fsmod, 'fsync'):
+            fsmod.fsync = lambda fd: None
     return rz
 
 
@@ -824,7 +839,8 @@ class Run:
                                    'verify%s exits 0 although backup file %s (%s) is %s' % (
                                        ' -Q' if q else '', n, role, kind))
             # recover after the damage: judged only when the damaged file is not used
-            for w in (0, 1):
+            self.ndamage = getattr(self, 'ndamage', 0) + 1
+            for w in ((0, 1) if self.case.get('final', {}).get('max_damages') is None else (self.ndamage % 2,)):
                 self.recover(None, w, 'o', 0, judge=(role == 'superseded-chain'), used_damaged=True)
             e = next((x for x in self.held if x.fname == n), None)
             if role == 'superseded-chain' and e is not None:
@@ -913,7 +929,7 @@ def main(argv=None):
     ck.extra['modules'] = ['Props.C18', 'Drivers.Repozo']
     ck.run_gate(ck.extra['modules'], ['Props.C18'])
     import ZODB.scripts.repozo  # noqa: F401  (fail early, as an infra error, if the import breaks)
-    nscen = 160 if not ck.thorough else 1500
+    nscen = 100 if not ck.thorough else 3000
     final = dict(variants=2, max_damages=20) if not ck.thorough else dict(variants=3, max_damages=None)
     cases = []
     if ck.replay_path:
@@ -986,7 +1002,9 @@ def main(argv=None):
             'MD5 collision-free (checksums are modelled by the bytes themselves); gzip round-trips '
             '(modelled as identity; unreadable gzip streams are judged on the real code only)',
             'successive backups carry distinct dates at 1-second granularity (repozo names files by the '
-            'second; two backups within one second are outside the model and the guarantee)',
+            'second; two backups within one second are outside the guarantee: run from corpus/C18/06, not '
+            'judged, code and model compared, outcome under coverage.excluded_points)',
+            'every repozo run, commit and pack is one atomic step (no race inside a repozo run)',
             'QuickDetectable for --quick backups: the source is shorter than the last recorded end, or a '
             'byte inside the LAST chunk\'s range differs, or the backed-up prefix is unchanged; measured per '
             'quick backup (histogram quick-backup:QuickDetectable=...), the excluded point is run from '
